@@ -244,6 +244,11 @@ pub struct Kanata {
     pub macro_on_press_cancel_duration: u32,
     /// Stores user's saved clipboard contents.
     pub saved_clipboard_content: SavedClipboardData,
+    /// Is true if the most recent tick sent key presses/releases or ran a custom action.
+    /// Such a tick can leave keys pressed at the OS that the next tick is going to release
+    /// (e.g. a macro cancelled on release, caps-word toggled off), so kanata is only
+    /// considered idle after a tick in which nothing happened.
+    last_tick_had_activity: bool,
 }
 
 #[derive(PartialEq, Clone, Copy)]
@@ -448,6 +453,7 @@ impl Kanata {
             allow_hardware_repeat: cfg.options.allow_hardware_repeat,
             macro_on_press_cancel_duration: 0,
             saved_clipboard_content: Default::default(),
+            last_tick_had_activity: false,
         })
     }
 
@@ -584,6 +590,7 @@ impl Kanata {
             allow_hardware_repeat: cfg.options.allow_hardware_repeat,
             macro_on_press_cancel_duration: 0,
             saved_clipboard_content: Default::default(),
+            last_tick_had_activity: false,
         })
     }
 
@@ -1021,6 +1028,7 @@ impl Kanata {
     fn handle_keystate_changes(&mut self, _tx: &Option<Sender<ServerMessage>>) -> Result<bool> {
         let layout = self.layout.bm();
         let custom_event = layout.tick();
+        self.last_tick_had_activity = !matches!(custom_event, CustomEvent::NoEvent);
         let mut live_reload_requested = false;
         let cur_keys = &mut self.cur_keys;
         cur_keys.extend(layout.keycodes());
@@ -1151,6 +1159,7 @@ impl Kanata {
             if cur_keys.contains(k) {
                 continue;
             }
+            self.last_tick_had_activity = true;
             log::debug!("key release   {:?}", k);
             if let Err(e) = release_key(&mut self.kbd_out, k.into()) {
                 bail!("failed to release key: {:?}", e);
@@ -1204,6 +1213,7 @@ impl Kanata {
             // allocations and logic.
             self.prev_keys.push(*k);
             self.last_pressed_key = *k;
+            self.last_tick_had_activity = true;
 
             if self.sequence_always_on && self.sequence_state.is_inactive() {
                 self.sequence_state
@@ -2182,6 +2192,7 @@ impl Kanata {
             && self.dynamic_macro_replay_state.is_none()
             && self.caps_word.is_none()
             && self.vkeys_pending_release.is_empty()
+            && !self.last_tick_had_activity
             && !self.layout.b().states.iter().any(|s| {
                 matches!(s, State::SeqCustomPending(_) | State::SeqCustomActive(_))
                     || (pressed_keys_means_not_idle && matches!(s, State::NormalKey { .. }))
